@@ -70,7 +70,7 @@ impl Property for C13 {
             }
         }
         let mut p = if has4 { peer_v4(1, 50, 0) } else { PeerCfg { seg: 0, v4: None, v6: Some("fe80::1:50".into()), responder: None } };
-        p.responder = Some(ResponderCfg { records: recs, delay_ms: 15, honor_known_answers: true, additionals: true, active: true, max_answers: None, skip_first: 0 });
+        p.responder = Some(ResponderCfg { records: recs, delay_ms: 15, honor_known_answers: true, additionals: true, active: true, max_answers: None, skip_first: 0, conflict_probes: 0 });
         s.peers.push(p);
         let mut slot = 10u32;
         let mut t_last = 0u64;
